@@ -52,6 +52,7 @@ M = {
     "moveself": {"op": "move", "set": "1:2", "dst": "INBOX"},
     "moveback": {"op": "move", "set": "1", "dst": "INBOX"},
     "noop": {"op": "noop"},
+    "fetchdates": {"op": "fetch", "set": "1:*", "items": "(UID INTERNALDATE)", "uid": True},
     "capability": {"op": "capability"},
     "idle": {"op": "idle"},
     "done": {"op": "done"},
@@ -139,6 +140,14 @@ def scenarios(tier):
         # entering IDLE flushes what is waiting and then switches to immediate delivery: flag changes made meanwhile keep their order
         dict(scn("store,store|idle,done slow reader", SEL_AB + DEL1[:1], A=["store1", "store1y"], B=["idle", "done"]), slow=["B"]),
         dict(scn("expunge|idle,done slow reader", SEL_AB + DEL1[:1], A=["expunge"], B=["idle", "done"]), slow=["B"]),
+        # two sessions name a mailbox that is not active yet while a third renames another one (the rename holds the lock on the
+        # table of active mailboxes across its database write); world of C06: INBOX(3), a, a/b, e, p, p/q, x
+        {"name": "3:rename-x|select-e|select-e (e inactive)", "cfg_ref": ["vf.props.c06", "cfg", []], "prelude": [{"s": "A", "op": "select", "m": "INBOX"}],
+         "concurrent": {"A": [{"s": "A", "op": "rename", "m": "x", "to": "y"}], "B": [{"s": "B", "op": "select", "m": "e"}], "C": [{"s": "C", "op": "select", "m": "e"}]},
+         "loopopts": {"preempt_timers": False}},
+        # the destination's session looks at internal dates while the COPY / MOVE that adds the messages is finishing
+        # (an I/O operation passed over stays postponed until nothing else can run: one slow file operation, not one per step)
+        dict(scn("copy|fetchdates-in-dst", SEL_A_Bo, A=["copy12"], B=["fetchdates", "fetchdates"]), loopopts={"preempt_timers": False, "sticky_ops": True}),
         # an EXPUNGE that finds nothing to do when it is admitted, next to a STORE that is about to give it something
         scn("3:store2del|expunge|noop", SEL_AB + [{"s": "C", "op": "select", "m": "INBOX"}], A=["store2del"], C=["expunge"], B=["noop"]),
         # a notification is being pushed to an idling session that reads slowly while the set of sessions on the mailbox changes
